@@ -72,7 +72,14 @@ def run(seed, pids):
     try:
         for pid in pids:
             t0 = time.time()
-            rc, out = sh(f"./check {pid} quick", cwd=ROOT, timeout=5400)
+            # the committed evidence must describe the UNCHANGED tree: keep it aside while the seeded tree is checked
+            evf = os.path.join(ROOT, "evidence", f"{pid}.json")
+            saved = open(evf).read() if os.path.exists(evf) else None
+            try:
+                rc, out = sh(f"./check {pid} quick", cwd=ROOT, timeout=5400)
+            finally:
+                if saved is not None:
+                    open(evf, "w").write(saved)
             viol = [l for l in out.splitlines() if l.startswith("VIOLATION")]
             desc = [l.strip() for l in out.splitlines() if l.startswith("  -> ")]
             meta["detected_by"][pid] = {"exit": rc, "violations": len(viol), "first": (desc[0][:400] if desc else ""),
